@@ -247,6 +247,21 @@ func TestC01(t *testing.T) {
 						}
 					}
 					rep.Stat("reapplies_checked", 1)
+					// a stubbed return given after the callbacks takes over: no callback runs any more
+					var serr interface{}
+					func() { defer func() { serr = recover() }(); c.InstallReturn(b) }()
+					if serr != nil {
+						rep.Violate("C01/mock-rejected", fmt.Sprintf("%s: Return after Apply rejected: %v", c.Name, serr), info)
+					} else {
+						st.Reset()
+						st2.Reset()
+						o := runCase(c, "direct", 1)
+						rep.Eval(1)
+						h1, h2 := atomic.LoadInt64(&st.Hits), atomic.LoadInt64(&st2.Hits)
+						if o.pan != nil || h1 != 0 || h2 != 0 || c.OrigHits() != hits0 || (o.res != "<discarded>" && o.res != c.MockRes()) {
+							rep.Violate("C01/stub-after-callback-not-in-effect", fmt.Sprintf("%s: after Return(...) following Apply: panic %v, callbacks ran %d and %d times (want 0), results %s want %s", c.Name, o.pan, h1, h2, short(o.res), short(c.MockRes())), info)
+						}
+					}
 				}
 			}
 			b.Reset()
